@@ -35,6 +35,13 @@ type fragIndex int
 
 // Get the elements of the data identified by the path.
 func (x Expr) Get(data any) (results []any) {
+	return x.getWithRoot(data, data)
+}
+
+// getWithRoot is Get with the document root given separately from the data the
+// expression starts at. The two differ when the expression is an operand of
+// a filter script: a nested filter still resolves $ against the document.
+func (x Expr) getWithRoot(data, root any) (results []any) {
 	if len(x) == 0 {
 		return
 	}
@@ -464,9 +471,9 @@ func (x Expr) Get(data any) (results []any) {
 			}
 		case Root:
 			if int(fi) == len(x)-1 { // last one
-				results = append(results, data)
+				results = append(results, root)
 			} else {
-				stack = append(stack, data)
+				stack = append(stack, root)
 			}
 		case At, Bracket:
 			if int(fi) == len(x)-1 { // last one
@@ -837,7 +844,7 @@ func (x Expr) Get(data any) (results []any) {
 			}
 		case *Filter:
 			before := len(stack)
-			ns, _ := tf.evalWithRoot(stack, prev, data)
+			ns, _ := tf.evalWithRoot(stack, prev, root)
 			stack, _ = ns.([]any)
 			if int(fi) == len(x)-1 { // last one
 				for i := len(stack) - 1; before <= i; i-- {
